@@ -698,6 +698,13 @@ func runC18(c C18Case, o *run.Obs) error {
 	}
 	o.NonTrivial = sawEmpty && sawMissing && sawConcurrent
 	o.Labelf("backend=%s", c.Backend)
+	opsSeen := map[string]bool{}
+	for _, op := range c.Ops {
+		if !opsSeen[op.Kind] {
+			opsSeen[op.Kind] = true
+			o.Labelf("op=%s", op.Kind)
+		}
+	}
 	if sawEmpty {
 		o.Label("empty-payload")
 	}
@@ -724,7 +731,7 @@ func init() {
 	run.Register(run.Prop[C18Case]{
 		ID:    "C18",
 		Level: "exploration",
-		Rule: "case = backend (in-memory, file in a fresh directory, S3 through a recording fake S3Interface with a generated bucket and prefix; thorough adds the repository's gofakes3 HTTP server on localhost) + 1-6 names from the node-name alphabet [A-Za-z0-9_-] (lengths 1-64, mostly 43) + 1-4 payloads (empty, binary, text, 1-70 kB; thorough up to 1 MiB) + a program of 1-14 ops: store, store again, 2-6 concurrent stores of the same name and bytes, load, load of a never-written name, and for S3 injected PutObject / GetObject / body-read failures. Oracle: a name->bytes model; loads return exactly the stored bytes; a missing name gives an error, never data; injected backend errors come back (errors.Is); the fake S3 client holds exactly the objects bucket / prefix+name with the modelled bytes. " +
+		Rule: "case = backend (in-memory, file in a fresh directory, S3 through a recording fake S3Interface with a generated bucket and prefix; thorough adds the repository's gofakes3 HTTP server on localhost) + 1-6 names from the node-name alphabet [A-Za-z0-9_-] (lengths 1-64, mostly 43) + 1-4 payloads (empty, binary, text, 1-70 kB; thorough up to 1 MiB) + a program of 1-14 ops: store, store again, 2-6 concurrent stores of the same name and bytes, load, load of a never-written name, and for S3 injected PutObject / GetObject / body-read failures (a put that fails once after its body was read, puts that fail on every attempt with plain or AWS-style throttling / time-out / internal / connection-reset errors, bodies that break off or die with the request context, a load whose response is held back across a store of that name); for the file backend write faults with a retry through the same store object, a node file out of reach for one load, and stores through a SECOND file store on another directory of the same process; slices handed out by Load are re-checked after every later operation; each concurrent writer loads right after its own successful store. Oracle: a name->bytes model; loads return exactly the stored bytes; a missing name gives an error, never data; injected backend errors come back (errors.Is); the fake S3 client holds exactly the objects bucket / prefix+name with the modelled bytes. " +
 			"Non-trivial = the program contains an empty payload AND a missing-name load AND a concurrent same-name store; distinct by case hash",
 		Assumptions: []string{"a name is always re-written with the same bytes (content addressing: the contract only covers 'the same name and bytes again')", "missing objects surface as errors from the S3 client (as S3 does)"},
 		Gen:         genC18,
